@@ -13,5 +13,14 @@ def handle (fn : String) (args : List Json) : String :=
   | "format" => match args with
     | [a0] => (do let x0 ← Wire.decStr a0; pure (Wire.respondWith Wire.encStr (Gen.kr_rrn.format x0)) : Option String).getD "badargs"
     | _ => "badargs"
+  | "get_birth_date" => match args with
+    | [t, a0, a1] => (do let today__ ← Wire.decDate t; let x0 ← Wire.decStr a0; let x1 ← Wire.decBool a1; pure (Wire.respondWith Wire.encDate (Gen.kr_rrn.get_birth_date today__ x0 x1)) : Option String).getD "badargs"
+    | _ => "badargs"
+  | "is_valid" => match args with
+    | [t, a0, a1] => (do let today__ ← Wire.decDate t; let x0 ← Wire.decStr a0; let x1 ← Wire.decBool a1; pure (Wire.respondWith Wire.encBool (Gen.kr_rrn.is_valid today__ x0 x1)) : Option String).getD "badargs"
+    | _ => "badargs"
+  | "validate" => match args with
+    | [t, a0, a1] => (do let today__ ← Wire.decDate t; let x0 ← Wire.decStr a0; let x1 ← Wire.decBool a1; pure (Wire.respondWith Wire.encStr (Gen.kr_rrn.validate today__ x0 x1)) : Option String).getD "badargs"
+    | _ => "badargs"
   | _ => "nofunc"
 end Driver.D_kr_rrn
